@@ -45,14 +45,24 @@ func c16(c *Ctx) {
 			return
 		}
 		g := gx.FG(fn)
+		// the points where the delegate is looked at: every read of the field (a direct nil test, or a copy into a local that is tested later)
 		tests := g.Match(func(n ast.Node) bool {
-			be, ok := n.(*ast.BinaryExpr)
-			if !ok {
-				return false
-			}
-			_, isCmp := nilCmp(info, be, 1, func(e ast.Expr) bool { return isField(info, e, fDel) })
-			return isCmp
+			se, ok := n.(*ast.SelectorExpr)
+			return ok && isField(info, se, fDel)
 		})
+		isDel := func(x ast.Expr) bool {
+			if isField(info, x, fDel) {
+				return true
+			}
+			if id, ok := unparen(x).(*ast.Ident); ok {
+				if o := info.Uses[id]; o != nil {
+					if def := g.LocalDef(o); def != nil && isField(info, def, fDel) {
+						return true
+					}
+				}
+			}
+			return false
+		}
 		regs := g.Match(func(n ast.Node) bool {
 			if as, ok := n.(*ast.AssignStmt); ok {
 				for _, l := range as.Lhs {
@@ -88,7 +98,7 @@ func c16(c *Ctx) {
 			// registered only when no delegate: dominated by the delegate == nil edge
 			dn, _ := g.DominatedByEdges(r, func(e *GEdge) bool {
 				return edgeImplies(e, func(cnd ast.Expr, pol int) bool {
-					nn, ok := nilCmp(info, cnd, pol, func(x ast.Expr) bool { return isField(info, x, fDel) })
+					nn, ok := nilCmp(info, cnd, pol, isDel)
 					return ok && !nn
 				})
 			})
